@@ -564,14 +564,33 @@ func c14Keywords(c *Ctx, rule string) {
 						for _, rt := range plainOrigins.Roots(st.Val) {
 							_ = rt
 						}
-						if cv, ok := st.Val.(*ssa.Convert); ok {
-							if sl, ok := cv.X.(*ssa.Slice); ok {
-								lo, okl := sl.Low.(*ssa.UnOp)
-								hi, okh := sl.High.(*ssa.UnOp)
-								if okl && okh && isScannerField(lo.X, "tokenPos") && isScannerField(hi.X, "pos") {
-									sliceOK = true
+						// the word itself, or the word with the continuation after an escape appended, on every path
+						var whole func(v ssa.Value, depth int) bool
+						whole = func(v ssa.Value, depth int) bool {
+							switch x := v.(type) {
+							case *ssa.Convert:
+								if sl, ok := x.X.(*ssa.Slice); ok {
+									lo, okl := sl.Low.(*ssa.UnOp)
+									hi, okh := sl.High.(*ssa.UnOp)
+									return okl && okh && isScannerField(lo.X, "tokenPos") && isScannerField(hi.X, "pos")
 								}
+							case *ssa.Phi:
+								if depth > 3 {
+									return false
+								}
+								for _, e := range x.Edges {
+									if !whole(e, depth+1) {
+										return false
+									}
+								}
+								return len(x.Edges) > 0
+							case *ssa.BinOp:
+								return x.Op == token.ADD && depth <= 3 && whole(x.X, depth+1)
 							}
+							return false
+						}
+						if whole(st.Val, 0) {
+							sliceOK = true
 						}
 					}
 				}
